@@ -1,0 +1,34 @@
+//go:build verif
+
+// Contracts for the verification engine in /verif (comment-only file; it is
+// compiled only with the build tag "verif" and contains no code).
+
+package md5
+
+// ---- C12: the integrity filter ------------------------------------------------
+// md5fn is the digest as an uninterpreted function of the content (16 bytes).
+//@ spec fn md5fn(v int) int
+//@ axiom[md5-length] forall v int :: {md5fn(v)} seqlen(md5fn(v)) == 16
+
+//@ constglobal errDataCheck @C12
+
+// getMd5 forwards to crypto/md5 (hash.Hash.Write never fails): assumed
+//@ trusted getMd5
+//@   modifies nothing
+//@   ensures result.1 == nil && view(result.0) == md5fn(view(src)) && len(result.0) == 16
+
+//@ func (*md5Hash).OnPack
+//@   property C12
+//@   flags seq
+//@   ensures[appends-digest] result.1 == nil && view(result.0) == cat(old(view(src)), md5fn(old(view(src))))
+
+//@ func (*md5Hash).OnUnpack
+//@   property C12
+//@   flags seq
+//@   let n = len(src)
+//@   let v = old(view(src))
+//@   ensures[accept-iff-digest-matches] (result.1 == nil) <==> (n >= 16 && md5fn(sub(v, 0, n - 16)) == sub(v, n - 16, n))
+//@   ensures[returns-payload] result.1 == nil ==> view(result.0) == sub(v, 0, n - 16)
+
+// unpack(pack(x)) == x for the integrity filter, for every content x
+//@ lemma md5_inverse @C12: forall x int :: sub(cat(x, md5fn(x)), 0, seqlen(cat(x, md5fn(x))) - 16) == x && md5fn(sub(cat(x, md5fn(x)), 0, seqlen(cat(x, md5fn(x))) - 16)) == sub(cat(x, md5fn(x)), seqlen(cat(x, md5fn(x))) - 16, seqlen(cat(x, md5fn(x))))
